@@ -7,7 +7,7 @@ The data path of an asynchronous `get_data` (`MosaikRemote.get_data`, model: `as
 * `asyncAnswer_found_kept`: a value found in the cache is in the answer unless the other simulator's reply mentions the very
   port; `asyncAnswer_direct`: what the other simulator replies for a port is in the answer (last mention wins)
 * `asyncSlice_history`: with the cache on, in every run whose output times do not go back, the slice is the never-pruned
-  history's entry for the requester's last step (invariant `CacheRef`)
+  history's entry for the time of the requester's running step (invariant `CacheRef`)
 -/
 import MosaikProofs.Sched.CacheRef
 namespace Mosaik
@@ -218,19 +218,33 @@ theorem maxShift_nonneg (cfg : Cfg) (q : Sid) : 0 ≤ maxShift cfg q := by
       exact Int.le_trans (inner_max_ge q (cfg.sim a).pulled m).1 (ih _)
   exact key _ 0
 
-theorem asyncLookupTime_eq (s : State) (p : Sid) : asyncLookupTime s p = lastTime s p := rfl
+theorem lastTime_le_asyncLookupTime (s : State) (p : Sid) : lastTime s p ≤ asyncLookupTime s p := by
+  unfold asyncLookupTime lastTime
+  cases (s.sims p).cur with
+  | none => exact Int.le_refl _
+  | some c => exact Int.le_max_left _ _
+
+/-- inside a step the lookup time is the time of the running step (a step in flight is never earlier than the last one) -/
+theorem asyncLookupTime_cur (s : State) (p : Sid) (c : TT) (hc : (s.sims p).cur = some c) (hl : lastTime s p ≤ (TT.time c : Int)) :
+    asyncLookupTime s p = (TT.time c : Int) := by
+  unfold asyncLookupTime
+  unfold lastTime at hl
+  rw [hc]
+  simp only
+  exact Int.max_eq_right hl
 
 /-- with the cache on, in every run whose reported output times do not go back, the slice an asynchronous `get_data` of `p`
 reads from `target`'s (pruned) cache is the entry of `target`'s never-pruned output history — its declared initial data followed
-by every `get_data` reply of the run — that is newest at or before `p`'s last step -/
+by every `get_data` reply of the run — that is newest at or before the lookup time (the time of `p`'s running step) -/
 theorem asyncSlice_history {cfg : Cfg} (hw : WFCfg cfg) (hc : cfg.useCache = true) (hi : InitSorted cfg) {s : State}
     (hr : ReachM cfg s) (hnf : s.failed = none) {p target : Sid} (hp : p < cfg.n) (ht : target < cfg.n) :
-    asyncSlice cfg s p target = getOutputFor (histOf cfg target s.log) (lastTime s p) := by
+    asyncSlice cfg s p target = getOutputFor (histOf cfg target s.log) (asyncLookupTime s p) := by
   have href := reachM_cacheRef hw hc hi hr hnf
   unfold asyncSlice
-  simp only [hc, if_true, asyncLookupTime_eq]
+  simp only [hc, if_true]
   have h1 := minLast_le cfg s hp
   have h2 : 0 ≤ maxShift cfg target := maxShift_nonneg cfg target
+  have h3 := lastTime_le_asyncLookupTime s p
   exact href.look target ht _ (by omega)
 
 end Mosaik
